@@ -32,29 +32,42 @@ func checkC03(c *Ctx) {
 	recv := fn.Params[0]
 	sigP := paramBytes(fn)
 	wc := sigPkg + ".WINCertificate."
-	// ---- M1: header constants and length
+	// ---- M1: header constants and length (wherever in the view the entry is built)
 	var bad []string
+	av := c.deepViewOf(fn, 3)
+	av.stopAt = map[string]bool{acPkg + ".PaddingBytes": true}
+	isRootSig := func(v ssa.Value, fr *frame) bool {
+		r := av.resolveConv(v, fr)
+		return r.fr == av.root && r.v == ssa.Value(sigP)
+	}
 	var lengthVal ssa.Value
-	for _, st := range storesTo(fn, wc+"Length") {
-		lengthVal = st.Val
-		a := affineOf(st.Val, 0)
+	nLen := 0
+	for _, di := range av.storesToField(wc + "Length") {
+		st := di.i.(*ssa.Store)
+		_ = lengthVal
+		nLen++
+		a := av.affine(st.Val, di.fr, nil, 0)
 		want := symAffine("len(param:"+sigP.Name()+")", nil)
 		want.K = 8
 		if !a.equal(want) {
 			bad = append(bad, "dwLength is "+a.String()+", want 8 + len(signature)")
 		}
 	}
-	if lengthVal == nil {
+	if nLen == 0 {
 		bad = append(bad, "dwLength is not set")
 	}
-	for _, st := range storesTo(fn, wc+"Revision") {
-		if !constIs(st.Val, 0x0200) && !isGlobalLoad(st.Val, sigPkg+".WIN_CERTIFICATE_REVISION") {
+	nRev := 0
+	for _, di := range av.storesToField(wc + "Revision") {
+		nRev++
+		v := av.resolveConv(di.i.(*ssa.Store).Val, di.fr).v
+		if !constIs(v, 0x0200) && !isGlobalLoad(v, sigPkg+".WIN_CERTIFICATE_REVISION") {
 			bad = append(bad, "wRevision is not 0x0200")
 		}
 	}
 	okType := false
-	for _, st := range storesTo(fn, wc+"CertType") {
-		if isGlobalLoad(st.Val, sigPkg+".WIN_CERT_TYPE_PKCS_SIGNED_DATA") || constIs(st.Val, 2) {
+	for _, di := range av.storesToField(wc + "CertType") {
+		v := av.resolveConv(di.i.(*ssa.Store).Val, di.fr).v
+		if isGlobalLoad(v, sigPkg+".WIN_CERT_TYPE_PKCS_SIGNED_DATA") || constIs(v, 2) {
 			okType = true
 		}
 	}
@@ -62,15 +75,15 @@ func checkC03(c *Ctx) {
 		bad = append(bad, "wCertificateType is not WIN_CERT_TYPE_PKCS_SIGNED_DATA")
 	}
 	okBody := false
-	for _, st := range storesTo(fn, wc+"Certificate") {
-		if st.Val == ssa.Value(sigP) {
+	for _, di := range av.storesToField(wc + "Certificate") {
+		if isRootSig(di.i.(*ssa.Store).Val, di.fr) {
 			okBody = true
 		}
 	}
 	if !okBody {
 		bad = append(bad, "bCertificate is not the signature parameter itself")
 	}
-	if len(storesTo(fn, wc+"Revision")) == 0 {
+	if nRev == 0 {
 		bad = append(bad, "wRevision is not set")
 	}
 	c.R.Check(len(bad) == 0, "M1.header", fname, "WIN_CERTIFICATE", c.Pos(fn.Pos()), "each entry is a revision-2.0 PKCS#7 WIN_CERTIFICATE with dwLength = 8 + len(signature) over that same signature", strings.Join(bad, "; "))
@@ -84,47 +97,50 @@ func checkC03(c *Ctx) {
 	bad = nil
 	var hdrWrite, padWrite *ssa.Call
 	var pad *ssa.Call
-	instrsOf(fn, func(i ssa.Instruction) {
-		call, ok := i.(*ssa.Call)
+	var hdrDi, padWDi, padDi dinstr
+	for _, di := range av.order {
+		call, ok := di.i.(*ssa.Call)
 		if !ok {
-			return
+			continue
 		}
 		switch ir.CallID(call) {
 		case sigPkg + ".WriteWinCertificate":
-			if ir.HasField(c.Slicer().Slice(call.Call.Args[0]), acPkg+".PECOFFBinary.certTable") {
-				hdrWrite = call
+			if ir.HasField(av.sliceDeep(call.Call.Args[0], di.fr), acPkg+".PECOFFBinary.certTable") {
+				hdrWrite, hdrDi = call, di
 			}
 		case "bytes.Buffer.Write":
-			if ir.FieldID(loadAddr(call.Call.Args[0])) == acPkg+".PECOFFBinary.certTable" {
-				padWrite = call
+			if ir.HasField(av.sliceDeep(call.Call.Args[0], di.fr), acPkg+".PECOFFBinary.certTable") {
+				padWrite, padWDi = call, di
 			}
 		case acPkg + ".PaddingBytes":
-			pad = call
+			pad, padDi = call, di
 		}
-	})
+	}
 	isLenLoad := func(v ssa.Value) bool {
 		return ir.FieldID(ir.StripConv(v)) == wc+"Length"
 	}
+	sameFn := hdrWrite != nil && pad != nil && hdrDi.fr == padDi.fr
 	switch {
 	case hdrWrite == nil:
 		bad = append(bad, "the entry is not written to the certificate table")
 	case pad == nil:
 		bad = append(bad, "the entry padding is not computed by PaddingBytes")
 	default:
-		if !isLenLoad(pad.Call.Args[0]) {
+		if !isLenLoad(av.resolveConv(pad.Call.Args[0], padDi.fr).v) {
 			bad = append(bad, "PaddingBytes is not applied to the entry's dwLength")
 		}
-		if k, isK := ir.ConstInt(pad.Call.Args[1]); !isK || k != 8 {
+		if k, isK := ir.ConstInt(av.resolveConv(pad.Call.Args[1], padDi.fr).v); !isK || k != 8 {
 			bad = append(bad, "entries are not aligned to 8 bytes")
 		}
 		if padWrite == nil {
-			bad = append(bad, "the pad bytes are not appended to the certificate table")
+			c.R.Infof("M2.conserve", fname, "pad-bytes", c.Pos(fn.Pos()), "not decided for this shape: the pad bytes are not appended to the certificate table with one bytes.Buffer.Write")
 		} else {
-			ex, ok := padWrite.Call.Args[1].(*ssa.Extract)
+			pv := av.resolve(padWrite.Call.Args[1], padWDi.fr)
+			ex, ok := pv.v.(*ssa.Extract)
 			if !ok || ex.Tuple != ssa.Value(pad) || ex.Index != 0 {
 				bad = append(bad, "the bytes appended after the entry are not the pad bytes of that PaddingBytes call")
 			}
-			if !precedesInCFG(fn, hdrWrite, padWrite) {
+			if hdrDi.seq > padWDi.seq || sameFn && hdrDi.fr == padWDi.fr && !precedesInCFG(hdrDi.fr.fn, hdrWrite, padWrite) {
 				bad = append(bad, "the pad is written before the entry")
 			}
 		}
@@ -133,8 +149,12 @@ func checkC03(c *Ctx) {
 	// when a table exists) + dwLength + pad length of that PaddingBytes call
 	sizeField := "debug/pe.DataDirectory.Size"
 	vaField := "debug/pe.DataDirectory.VirtualAddress"
+	sizeInRoot := len(storesTo(fn, "debug/pe.DataDirectory.Size")) > 0
 	paths, complete := successPaths(fn, 256)
-	if !complete {
+	if !sizeInRoot {
+		c.R.Infof("M2.conserve", fname, "table+directory-paths", c.Pos(fn.Pos()), "not decided for this shape: the directory Size is not updated by stores in AppendSignature itself")
+		paths = nil
+	} else if !complete {
 		c.R.Infof("M2.conserve", fname, "table+directory-paths", c.Pos(fn.Pos()), "not decided for this shape: the function has loops or too many paths for the path evaluation of the directory Size")
 	}
 	for _, path := range paths {
@@ -206,9 +226,14 @@ func checkC03(c *Ctx) {
 	// ---- M3: a new table starts at the padded end of file; an existing table keeps its address
 	bad = nil
 	vas := storesTo(fn, vaField)
-	if len(vas) != 1 {
+	m3Decided := true
+	if len(vas) == 0 && !sizeInRoot {
+		c.R.Infof("M3.address", fname, "table-address-branch", c.Pos(fn.Pos()), "not decided for this shape: the table address is not assigned in AppendSignature itself")
+		m3Decided = false
+	} else if len(vas) != 1 {
 		bad = append(bad, fmt.Sprintf("%d assignments of the table address", len(vas)))
 	}
+	_ = m3Decided
 	for _, st := range vas {
 		if ir.FieldID(ir.StripConv(st.Val)) != acPkg+".PECOFFBinary.length" {
 			bad = append(bad, "a new table is not placed at the parsed length of the file")
@@ -265,7 +290,6 @@ func checkC03(c *Ctx) {
 	c.R.Check(len(bad) == 0, "M3.address", fname, "table-address", c.Pos(fn.Pos()), "a new certificate table starts at the 8-byte padded end of the file; an existing table keeps its address", strings.Join(bad, "; "))
 
 	// ---- the directory entry that is emitted is the updated one
-	av := c.deepViewOf(fn, 2)
 	derived, encoded := false, false
 	for _, di := range av.storesToField(acPkg + ".PECOFFBinary.optDataDir") {
 		sl := av.sliceDeep(di.i.(*ssa.Store).Val, di.fr)
